@@ -209,60 +209,9 @@ def units(w):
         return Unit(f"nodes.py::{ncls}.evaluate", setup, post, name=name or f"nodes.py::{ncls}.evaluate[all kinds]",
                     config={"max_unroll": 12}, replay=replay_forms, prepare=install_streams)
     body = lambda it: S.node("body", V.TRUE)
-    U.append(node_unit("NodeDeref", {"expression": lambda it: child("c"), "index": lambda it: child("i"), "default_value": None}))
-    U.append(node_unit("NodeDeref", {"expression": lambda it: child("c"), "index": lambda it: child("i"),
-                                     "default_value": lambda it: S.node("dflt", V.NULL)}, name="nodes.py::NodeDeref.evaluate[all kinds,default]"))
-    U.append(node_unit("NodeDerefSlice", {"expression": lambda it: child("c"), "start": lambda it: child("a"), "end": None},
-                       name="nodes.py::NodeDerefSlice.evaluate[all kinds, a to *]"))
-    U.append(node_unit("NodeIn", {"expression": lambda it: child("x"), "list": lambda it: child("c")}))
-    U.append(node_unit("NodeNot", {"expression": lambda it: child("x")}))
-    U.append(node_unit("NodeFor", {"identifiers": lambda it: PList(["x"]), "expression": lambda it: child("c"), "block": body, "what": None},
-                       name="nodes.py::NodeFor.evaluate[all kinds, for x]"))
-    U.append(node_unit("NodeFor", {"identifiers": lambda it: PList(["x", "y"]), "expression": lambda it: child("c"), "block": body, "what": "entries"},
-                       name="nodes.py::NodeFor.evaluate[all kinds, for [x, y] entries]"))
-    U.append(node_unit("NodeAssignDestructuring", {"identifiers": lambda it: PList(["x", "y"]), "expression": lambda it: child("c")}))
-    U.append(node_unit("NodeDefDestructuring", {"identifiers": lambda it: PList(["x", "y"]), "expression": lambda it: child("c"), "info": ""}))
-    U.append(node_unit("NodeIf", {"conditions": lambda it: PList([child("c")]), "expressions": lambda it: PList([body(it)]),
-                                  "elseExpression": body}))
-    U.append(node_unit("NodeError", {"expression": lambda it: child("v")}))
-    for what in (None, "keys", "values", "entries"):
-        U.append(node_unit("NodeListComprehension", {"valueExpr": body, "identifier": "x", "listExpr": lambda it: child("c"),
-                                                     "what": what, "conditionExpr": None},
-                           name=f"nodes.py::NodeListComprehension.evaluate[all kinds,{what}]"))
-    spread = lambda it: Obj(nodes["NodeSpread"], {"expression": child("c"), "pos": None})
-    U.append(node_unit("NodeList", {"items": lambda it: PList([spread(it)])}, name="nodes.py::NodeList.evaluate[spread of all kinds]"))
-
-    # three-operand forms: the container/index/value kinds fork independently (first two), third restricted
-    U.append(node_unit("NodeDerefSlice", {"expression": lambda it: child("c"), "start": lambda it: child("a"), "end": lambda it: child("b")},
-                       name="nodes.py::NodeDerefSlice.evaluate[all kinds, a to b]"))
-    U.append(node_unit("NodeDerefAssign", {"expression": lambda it: child("c"), "index": lambda it: child("i"), "value": lambda it: child("v")}))
-    # the remaining iteration / literal / call forms
-    for cls_ in ("NodeSetComprehension", "NodeMapComprehension"):
-        for what in (None, "keys", "values", "entries"):
-            fs = {"valueExpr": body, "identifier": "x", "listExpr": lambda it: child("c"), "what": what, "conditionExpr": None}
-            if cls_ == "NodeMapComprehension":
-                fs["keyExpr"] = lambda it: child("k")
-            else:
-                fs["valueExpr"] = lambda it: child("v")
-            U.append(node_unit(cls_, fs, name=f"nodes.py::{cls_}.evaluate[all kinds,{what}]"))
-    for cls_ in ("NodeListComprehensionParallel", "NodeListComprehensionProduct", "NodeSetComprehensionParallel", "NodeSetComprehensionProduct"):
-        for what in (None, "keys", "values", "entries"):
-            U.append(node_unit(cls_, {"valueExpr": body, "identifier1": "x", "listExpr1": lambda it: child("c"), "what1": what,
-                                      "identifier2": "y", "listExpr2": lambda it: child("d"), "what2": what, "conditionExpr": None},
-                               name=f"nodes.py::{cls_}.evaluate[all kinds,{what}]"))
-    U.append(node_unit("NodeSet", {"items": lambda it: PList([child("e"), child("f")])}, name="nodes.py::NodeSet.evaluate[elements of all kinds]"))
-    U.append(node_unit("NodeSet", {"items": lambda it: PList([spread(it)])}, name="nodes.py::NodeSet.evaluate[spread of all kinds]"))
-    U.append(node_unit("NodeMap", {"keys": lambda it: PList([child("k")]), "values": lambda it: PList([child("v")])}, name="nodes.py::NodeMap.evaluate[key and value of all kinds]"))
-    U.append(node_unit("NodeObject", {"keys": lambda it: PList(["m"]), "values": lambda it: PList([child("v")])}, name="nodes.py::NodeObject.evaluate[member of all kinds]"))
-    U.append(node_unit("NodeDerefInvoke", {"objectExpr": lambda it: child("o"), "member": "m", "names": lambda it: PList([None]), "args": lambda it: PList([child("a")])},
-                       name="nodes.py::NodeDerefInvoke.evaluate[receiver and argument of all kinds]"))
-    U.append(node_unit("NodeFuncall", {"func": lambda it: child("f"), "names": lambda it: PList([None]), "args": lambda it: PList([child("a")])},
-                       name="nodes.py::NodeFuncall.evaluate[callee and argument of all kinds]"))
-    U.append(node_unit("NodeFuncall", {"func": lambda it: S.node("callee", F.func("callee", ["a", "rest..."], lambda it_, vs: V.NULL)),
-                                       "names": lambda it: PList([None]), "args": lambda it: PList([spread(it)])},
-                       name="nodes.py::NodeFuncall.evaluate[spread argument of all kinds]"))
-    U.append(node_unit("NodeAnd", {"expressions": lambda it: PList([child("a"), child("b")])}, name="nodes.py::NodeAnd.evaluate[operands of all kinds]"))
-    U.append(node_unit("NodeOr", {"expressions": lambda it: PList([child("a"), child("b")])}, name="nodes.py::NodeOr.evaluate[operands of all kinds]"))
+    from .nodeforms import node_forms
+    for ncls_, fields_, name_, loops_ in node_forms(nodes, child, body, S, F, V):
+        U.append(node_unit(ncls_, fields_, name=name_, loops=loops_))
 
     # ------------------------------------------------------------------ (A3) conversions and renderings of every value class, unbounded payloads
     # (the kind sweep above bounds string payloads to 2 characters and renders opaquely; conversions such as date('...')
